@@ -180,15 +180,21 @@ def r3_blocks(c):
     m = repo.module(PATCHING)
     fn = repo.func(PATCHING, "make_patch")
     gm = GuardMap(fn)
-    ab = [x for x in calls_in(fn) if isinstance(x.func, ast.Attribute) and x.func.attr == "add_block"]
-    ad = [x for x in calls_in(fn) if isinstance(x.func, ast.Attribute) and x.func.attr == "add" and isinstance(x.func.value, ast.Name) and x.func.value.id == "tree"]
+    rets_ = [n for n in walk_no_nested(fn) if isinstance(n, ast.Return) and isinstance(n.value, ast.Name)]
+    tv = rets_[-1].value.id if rets_ else "tree"
+    ab = [x for x in calls_in(fn) if isinstance(x.func, ast.Attribute) and x.func.attr == "add_block" and norm(x.func.value) == tv]
+    ad = [x for x in calls_in(fn) if isinstance(x.func, ast.Attribute) and x.func.attr == "add" and isinstance(x.func.value, ast.Name) and x.func.value.id == tv]
     if len(ab) != 1 or not ad:
         raise AnchorError("C01.R3: tree.add_block / tree.add calls not found in make_patch")
+    itemvar = "item"
+    lp = gm.in_loop(ab[0])
+    if lp and isinstance(lp[-1].target, ast.Name):
+        itemvar = lp[-1].target.id
 
     def ren(s):
         for k in ("children", "parent", "direct", "force_commit"):
             for q in ('"', "'"):
-                if s == f"item[{q}{k}{q}]":
+                if s == f"{itemvar}[{q}{k}{q}]":
                     return k
         return s
     env = G.GuardEnv(rename=ren)
